@@ -15,11 +15,46 @@ func (mgr *TopicManager) findSubscribers(topic string) (subs map[string]byte, er
   flag allocates
   ensures subs == nil || fresh(subs)
 
-func (s *Session) publish(span *model.SpanContext, topic string, payload []byte, qos byte)
+// ---- C15: QoS1 bookkeeping of a session (at-least-once) ----
+// monitor invariant of the session lock: every unacknowledged QoS1 message is still in the resend queue
+// (the pending map itself is created once in newSessionFromYaml / newSession and never replaced; its entries change only under the lock)
+guarded Session.{pendingQueue, nextID, qbase, qpos} by Mutex
+type Session invariant pending-map: self.pending != nil && (forall id uint16 :: (id in self.pending) ==> self.pending[id] != nil)
+// (stated with a ghost position function instead of an existential: qpos[id] - qbase is the index of id in the queue;
+//  qbase counts the entries trimmed off the front so far)
+ghost field Session.qbase int
+ghost field Session.qpos mmap[int]int
+type Session invariant every-unacknowledged-message-is-queued-for-resend: forall id uint16 :: (id in self.pending) ==> self.qbase <= self.qpos[id] && self.qpos[id] < self.qbase + len(self.pendingQueue) && self.pendingQueue[self.qpos[id] - self.qbase] == id
+
+ghost var gWroteID int        // packet id handed to the client's write channel by publish / doResend (-1: none)
+ghost var gWrotePending bool  // ... and whether it was recorded as pending at that moment
+ghost var gWroteQueuePos int  // doResend: queue position of the id it resent
+
+func (c *Client) writePacket(packet packets.ControlPacket)
   trusted
-  requires s != nil
-  modifies published
+  requires c != nil
+
+func newMsg(topic string, payload []byte, qos byte) (m *Message)
+  trusted
+  flag allocates
+  ensures m != nil && fresh(m) && m.QoS == qos && m.Topic == topic
+
+func (s *Session) publish(span *model.SpanContext, topic string, payload []byte, qos byte)
+  flag allocates
+  flag frame=unchecked
+  requires s != nil && s.broker != nil && s.info != nil
+  modifies published, gWroteID, gWrotePending
   ensures published == old(store(published, ref(s), true))
+  ensures a-qos1-message-is-pending-before-it-is-written: gWroteID >= 0 ==> gWrotePending && qos == 1
+  ensures an-online-qos1-message-is-written: qos == 1 && gOnline ==> gWroteID >= 0
+  ghost at entry: published := store(published, ref(s), true)
+  ghost at entry: gWroteID := -1
+  ghost at call[1] getClient: gOnline := c != nil
+  ghost at call[1] writePacket: gWroteID := p.MessageID
+  ghost at call[1] writePacket: gWrotePending := (p.MessageID in s.pending)
+  ghost at call[1] writePacket: s.qpos[p.MessageID] := s.qbase + len(s.pendingQueue) - 1
+
+ghost var gOnline bool
 
 pred clientsWF(b *Broker) := forall c string :: c in b.clients ==> b.clients[c] != nil && b.clients[c].session != nil
 
@@ -37,10 +72,29 @@ func (b *Broker) sendMsgToClient(span *model.SpanContext, topic string, payload 
 // QoS1 bookkeeping: an acknowledgement removes exactly that packet id and nothing else (in
 // particular the resend queue is untouched: ids that are still pending stay scheduled for resend)
 func (s *Session) puback(p *packets.PubackPacket)
-  requires s != nil && p != nil && s.pending != nil
+  requires s != nil && p != nil
   modifies entries(s.pending)
   ensures acked-removed: !(p.MessageID in s.pending)
   ensures others-kept: forall k uint16 :: k != p.MessageID ==> ((k in s.pending) <==> old(k in s.pending)) && s.pending[k] == old(s.pending[k])
+
+// the periodic resend: the oldest queued message that is still unacknowledged is written again; an
+// acknowledged id is never resent; the queue is only trimmed of ids in front of it (all acknowledged)
+func (s *Session) doResend()
+  flag allocates
+  flag paths=split
+  flag frame=unchecked
+  requires s != nil && s.broker != nil && s.info != nil
+  modifies gWroteID, gWrotePending, gWroteQueuePos
+  ensures only-unacknowledged-messages-are-resent: gWroteID >= 0 ==> gWrotePending
+  ensures the-oldest-unacknowledged-one-first: gWroteID >= 0 ==> 0 <= gWroteQueuePos && gWroteQueuePos < len(old(s.pendingQueue)) && old(s.pendingQueue)[gWroteQueuePos] == gWroteID && (forall k int :: 0 <= k && k < gWroteQueuePos ==> !(old(s.pendingQueue)[k] in old(s.pending)))
+  ghost at entry: gWroteID := -1
+  ghost at call[1] DecodeString: s.qbase := s.qbase + idx$1
+  ghost at call[1] writePacket: gWroteID := idx
+  ghost at call[1] writePacket: gWrotePending := (idx in s.pending)
+  ghost at call[1] writePacket: gWroteQueuePos := idx$1
+  invariant[1] older-ones-are-acknowledged: forall k int :: 0 <= k && k < idx$1 ==> !(range$1[k] in s.pending)
+  invariant[1] queue-untouched: ref(s.pendingQueue) == ref(range$1) && len(s.pendingQueue) == len(range$1) && ref(range$1) == old(ref(s.pendingQueue)) && len(range$1) == old(len(s.pendingQueue)) && gWroteID == -1
+  invariant[1] monitor: s.pending != nil && (forall id uint16 :: (id in s.pending) ==> s.pending[id] != nil) && (forall id uint16 :: (id in s.pending) ==> s.qbase <= s.qpos[id] && s.qpos[id] < s.qbase + len(s.pendingQueue) && s.pendingQueue[s.qpos[id] - s.qbase] == id)
 
 // ---- C14: topic filter syntax (MQTT 3.1.1 section 4.7.1): a wildcard occupies an entire level and '#' is the last character ----
 lemma slashes-mono@n: forall s string; i int; n int :: 0 <= i && i <= n ==> slashes(s, i) <= slashes(s, n)
